@@ -7,7 +7,7 @@
 From Coq Require Import List PArith ZArith Bool String FMapPositive.
 From SV Require Import SM.Store SM.StoreProofs SM.StoreCert SM.StoreCertProofs SM.StoreCopy SM.StoreCopyProofs
   SM.StoreExamples SM.KvAdd SM.KvAddProofs SM.StoreCopySrc SM.StoreCopySrcProofs SM.KvAddFresh SM.KvAddFreshProofs
-  SM.StoreCopyExport SM.StoreCopyExportProofs SM.StoreCopyFlow SM.StoreCopyFlowProofs SM.StoreCopyWholeProofs SM.StoreRowCert SM.StoreRowCertProofs SM.StoreExportCert SM.StoreExportCertProofs SM.StoreTypedLabels SM.StoreTypedLabelsProofs SM.StoreCondRow SM.StoreCondRowProofs SM.OpPurity SM.OpPurityProofs SM.CollapseCensus SM.CollapseCensusProofs
+  SM.StoreCopyExport SM.StoreCopyExportProofs SM.StoreCopyFlow SM.StoreCopyFlowProofs SM.StoreCopyWholeProofs SM.StoreRowCert SM.StoreRowCertProofs SM.StoreExportCert SM.StoreExportCertProofs SM.StoreTypedLabels SM.StoreTypedLabelsProofs SM.StoreCondRow SM.StoreCondRowProofs SM.StorePickleState SM.StorePickleStateProofs SM.OpPurity SM.OpPurityProofs SM.CollapseCensus SM.CollapseCensusProofs
   Gen.CopyCensus_gen Gen.CopyExportReads_gen Gen.C09OpCensus_gen Gen.C09Collapse_gen.
 Import ListNotations.
 
@@ -642,3 +642,19 @@ Theorem c09_truthy_guard_loses_empty_refuted :
   guarded_store g_truthy None (Some []) <> Some [] /\
   forall v : optlist, v <> Some [] -> guarded_store g_truthy None v = v.
 Proof. exact truthy_guard_loses_empty. Qed.
+
+(** ROUND 4 — THE PICKLING PAIR.  copy.copy / copy.deepcopy / pickle of an Output hand the tuple built by [__getstate__] to
+    [__setstate__].  [output_state_put] / [output_state_get] (generated): the field each position is built from / unpacked
+    into.  Instance obligation [pickle_state_positions_match:Output] = [state_ok (names census_Output) put get]: then every
+    data field comes back with its own value.  (Which originals take the SHORT form — optional parts at their defaults — and
+    that the restored defaults equal those originals' values is only searched: boundary probe.) *)
+Theorem c09_pickle_state_roundtrip : forall fields put get, state_ok fields put get = true ->
+  forall obj f, In f fields -> alookup f (setstate get (getstate obj put)) = Some (alookup f obj).
+Proof. exact state_roundtrip. Qed.
+
+Theorem c09_pickle_state_swap_refuted :
+  state_ok ps_fields ps_fields ps_fields = true /\
+  state_ok ps_fields ps_fields ["inst_in"%string; "inst_out"%string; "delay"%string] = false /\
+  alookup "inst_out"%string (setstate ["inst_in"%string; "inst_out"%string; "delay"%string] (getstate ps_obj ps_fields)) = Some (Some 2%Z) /\
+  state_ok ps_fields ["inst_out"%string; "delay"%string] ["inst_out"%string; "delay"%string] = false.
+Proof. exact state_swap_refuted. Qed.
